@@ -879,29 +879,14 @@ func c01Dispatch2(c *Ctx, r *Report, p *Prov, zoneKeys []string, rule string) {
 	if cmdFn == nil {
 		return
 	}
-	sets := map[string]*ssa.Call{}
-	allInstrs(cmdFn, func(i ssa.Instruction) {
-		if call, ok := i.(*ssa.Call); ok && calleeKey(&call.Call) == omMethod("Set") && call.Call.Args[0] == ssa.Value(cmdFn.Params[0]) {
-			if k, ok := constString(call.Call.Args[1]); ok {
-				sets[k] = call
-			}
-		}
-	})
+	sets := p.zoneSets(cmdFn)
 	for _, k := range zoneKeys {
-		call := sets[k]
 		construct := fmt.Sprintf("%s:zone(%s)", cmdFn.Name(), k)
-		if call == nil {
+		if len(sets[k]) == 0 {
 			r.Bad(rule, construct, c.Pos(cmdFn.Pos()), "the "+k+" document is not walked: its field names stay in clear under --redactFieldNames")
 			continue
 		}
-		srcOK := false
-		if wc, ok := peel(call.Call.Args[2]).(*ssa.Call); ok && c.staticPkgCallee(&wc.Call) != nil {
-			for _, a := range wc.Call.Args {
-				if kk, ok := getKeyOfValue(a); ok && kk == k {
-					srcOK = true
-				}
-			}
-		}
-		r.Check(srcOK, rule, construct, c.InstrPos(call), "cmd["+k+"] replaced by the walker's result for cmd["+k+"]", "cmd["+k+"] is not the walker's result for the same key")
+		zs := sets[k][len(sets[k])-1]
+		r.Check(zs.srcOK, rule, construct, c.InstrPos(zs.call), "cmd["+k+"] replaced by the walker's result for cmd["+k+"]"+zs.via, "cmd["+k+"] is not the walker's result for the same key")
 	}
 }
